@@ -6,7 +6,8 @@ Cases
          state whose log-probabilities satisfy the sampler contract for the likelihood L of the
          program, and the search class whose real conversion function is run on it.
   e2e  : the real third-party sampler is run through `search.fit`; the sampler's own arrays are
-         read back as the abstract sampler state.
+         read back as the abstract sampler state (and must satisfy the sampler contract: `contract_fails`).
+  init : AbstractInitializer.samples_from_model on a scripted fitness, n_cores in {1, 2, 3}.
 For every case: the property oracle (below, independent of the Coq model: recomputes L from each
 returned sample's own kwargs) and the correspondence (Coq model of the conversion, bit exact).
 """
@@ -206,7 +207,7 @@ def rand_vec(rng, spec):
 
 
 def hexvec(v):
-    return [float(x).hex() for x in v]
+    return [("nan" if math.isnan(x) else "inf" if x == float("inf") else "-inf" if x == float("-inf") else float(x).hex()) for x in v]
 
 
 CONV_SEARCHES = ["emcee", "zeus", "dynesty_static", "dynesty_dynamic", "nautilus", "ultranest", "bfgs", "lbfgs",
@@ -257,6 +258,8 @@ def gen_conv(rng, search, spec=None):
         n = rng.randint(1, 25)
         rows = [rand_vec(rng, spec) for _ in range(n)]
         st = {"rows": [hexvec(v) for v in rows], "L": [L(v).hex() for v in rows]}
+        if n > 1 and rng.random() < 0.2:
+            st["drop"] = rng.randint(1, n - 1)      # fewer log-posteriors than parameter vectors (zip truncation)
     elif search in ("pyswarms_global", "pyswarms_local"):
         T = rng.randint(1, 7)
         P = rng.randint(1, 5)
@@ -272,6 +275,15 @@ def gen_conv(rng, search, spec=None):
               "ll": hexvec([rng.uniform(-50, 0) for _ in range(lens[0])]),
               "lp": hexvec([rng.choice([0.0, rng.uniform(0, 3)]) for _ in range(lens[1])]),
               "w": hexvec([rng.random() for _ in range(lens[2])])}
+        r = rng.random()
+        if st["ll"] and r < 0.12:             # -inf (the resample value of several searches) among the likelihoods
+            lls = [unhex(x) for x in st["ll"]]
+            lls[rng.randrange(len(lls))] = float("-inf")
+            st["ll"] = hexvec(lls)
+        elif st["ll"] and r < 0.2:            # NaN: `>` is false both ways (a NaN in front is reported as best)
+            lls = [unhex(x) for x in st["ll"]]
+            lls[rng.choice([0, rng.randrange(len(lls))])] = float("nan")
+            st["ll"] = hexvec(lls)
         if n > 2 and rng.random() < 0.5:      # ties for the maximum: the first one must win
             lls = [unhex(x) for x in st["ll"]]
             if len(lls) > 2:
@@ -299,7 +311,10 @@ def gen_init(rng):
 
 
 def init_value(params):
-    return -sum((i + 1.0) * v ** 2 for i, v in enumerate(params))
+    total = 0.0
+    for i, v in enumerate(params):
+        total = total + (i + 1.0) * (v * v)
+    return -total
 
 
 def init_kind(bands, params):
@@ -367,10 +382,13 @@ def gen_e2e(rng, search, cores=1, thorough=False, force_reject=False):
         path, (kind, k) = [lf for lf in leaves(spec["root"]) if lf[1][0] == "p"][0]
         p = spec["priors"][k]
         case["slow"] = [path.split("."), (unhex(p["lo"]) + unhex(p["hi"])) / 2.0, 0.04]
-    if search != "emcee" and cores == 1:
+    # (not pyswarms: fitting a completed PySwarms search again raises RecursionError while dill-loading the
+    #  saved optimiser in Result.search_internal -- no result is returned at all, which is C06's subject)
+    if search in ("drawer", "bfgs", "lbfgs", "dynesty_static", "dynesty_dynamic") and cores == 1:
         case["refit"] = True
     if (search == "drawer" and (force_reject or rng.random() < 0.5)) or \
-            (cores >= 2 and search in ("emcee", "dynesty_static", "dynesty_dynamic", "pyswarms_global", "pyswarms_local")):
+            (search in ("emcee", "dynesty_static", "dynesty_dynamic", "pyswarms_global", "pyswarms_local")
+             and (cores >= 2 or rng.random() < 0.5)):
         # a region where the fit raises FitException: the initializer must drop those draws
         # without shifting the likelihoods of the remaining ones
         path, (kind, k) = rng.choice([lf for lf in leaves(spec["root"]) if lf[1][0] == "p"])
@@ -434,7 +452,19 @@ def oracle(c, r):
         if vals is None:
             continue
         vec = [vals[k] for k in spec["creation"]]
-        if c["search"] != "from_lists":
+        rejected = False
+        if c.get("reject"):
+            rp, rlo, rhi = c["reject"]
+            rejected = rlo <= vals[prior_of_path[".".join(rp)]] < rhi
+        if rejected and c["search"] == "dynesty_dynamic":
+            # DynamicNestedSampler draws its own first live points (no autofit initializer): a point where the
+            # likelihood raises FitException is kept with the resample value Fitness returns for it
+            if ll != -1.0e99:
+                add("ll", "sample %d lies in the FitException region and reports %r instead of the resample value -1e99" % (i, ll))
+        elif rejected:
+            add("ll", "sample %d lies in the region where the likelihood raises FitException (%s = %r)"
+                % (i, ".".join(rp), vals[prior_of_path[".".join(rp)]]))
+        elif c["search"] != "from_lists":
             want = L_of_values(spec, c["terms"], vals)
             lp_want = ptab.get(tuple(float(x).hex() for x in vec))
             scale = abs(lp_want) if lp_want is not None else 1.0
@@ -446,21 +476,20 @@ def oracle(c, r):
                 add("lp", "sample %d reports log_prior %r, the priors give %r" % (i, lp, lp_want))
         else:
             st = c["state"]
-            if i >= len(st["rows"]) or [unhex(x) for x in st["rows"][i]] != vec or unhex(st["ll"][i]) != ll \
+            same = lambda a, b: a == b or (math.isnan(a) and math.isnan(b))
+            if i >= len(st["rows"]) or [unhex(x) for x in st["rows"][i]] != vec or not same(unhex(st["ll"][i]), ll) \
                     or unhex(st["lp"][i]) != lp or unhex(st["w"][i]) != w:
                 add("ll", "from_lists sample %d does not carry the %d-th entry of every input list" % (i, i))
-        if c.get("reject"):
-            rp, rlo, rhi = c["reject"]
-            v = vals[prior_of_path[".".join(rp)]]
-            if rlo <= v < rhi:
-                add("ll", "sample %d lies in the region where the likelihood raises FitException (%s = %r)" % (i, ".".join(rp), v))
-        if not close(post, ll + lp):
+        if not close(post, ll + lp) and not (math.isnan(ll) and math.isnan(post)):
             add("post", "sample %d: log_posterior %r != log_likelihood + log_prior %r" % (i, post, ll + lp))
         if not (w >= 0.0):
             add("weight", "sample %d has weight %r" % (i, w))
 
-    # best fit
-    if samples:
+    # best fit (a NaN log-likelihood is outside the property: Fitness never lets one reach a sampler; the
+    # model still predicts what the code does with it and the correspondence compares that)
+    if samples and any(math.isnan(x) for x in lls):
+        pass
+    elif samples:
         finite = [x for x in lls if not math.isnan(x)]
         m = max(finite) if finite else float("nan")
         if obs["best"] is None:
@@ -608,6 +637,8 @@ def classes_of(c, aspect):
     """Labels computed from the case and the violated clause of the property."""
     s = c["search"]
     out = ["%s:%s" % (s, aspect), "search=" + s]
+    # only the conversion's pairing clauses; the Fitness -> sampler path is judged by the unlabelled
+    # `contract` aspect (contract_fails) and the best fit / keys / weights by theirs
     if s.startswith("pyswarms") and aspect in ("ll", "lp"):
         out.append("pyswarms-pairing")
     # the MCMC labels apply only while the source has the pinned (unaligned) log-prob call
@@ -615,8 +646,6 @@ def classes_of(c, aspect):
         out.append("emcee-logprob-slice")
     if s == "zeus" and aspect == "ll" and VARIANTS.get("Zeus") == "unaligned":
         out.append("zeus-logprob-unthinned")
-    if c.get("cores", 1) >= 2 and s in ("emcee", "dynesty_static", "dynesty_dynamic") and aspect == "ll":
-        out.append("multicore-sneakypool-order")
     return out
 
 
@@ -749,7 +778,10 @@ def run(ctx):
                 "search class, abstract sampler state); conv cases feed generated arrays satisfying the sampler contract to the "
                 "real conversion function (real emcee backend; fakes for dynesty/nautilus/ultranest/zeus/bfgs/drawer/pyswarms "
                 "internals), e2e cases run the real sampler through search.fit and read its arrays back; non-trivial = at least "
-                "two sampler points (conv) or any real run (e2e); distinct = distinct abstract input")
+                "two sampler points (conv) or any real run (e2e); init cases run AbstractInitializer.samples_from_model on a scripted "
+                "fitness (value / FitException / NaN / below -1e98) with n_cores in {1,2,3} (non-trivial: >= 2 points); every e2e spec has "
+                "a Gaussian prior whose optimum is off the prior mean; e2e runs with emcee / dynesty / pyswarms (always at 2 cores) and "
+                "Drawer include a region where the likelihood raises FitException; distinct = distinct abstract input")
     ctx.trusted = [
         "Coq 8.16.1 kernel incl. vm_compute; primitive floats (PrimFloat, Uint63) are kernel primitives",
         "correspondence harness c05.py / impl/c05_impl.py / impl/c05_classes.py; Python float.hex; numpy.exp and the prior objects' "
@@ -763,7 +795,10 @@ def run(ctx):
         "theorems are over exact arithmetic: (a + b) - b = a, `<` a strict weak order; binary64 rounding is covered by the bit-exact "
         "correspondence and by the oracle's 1e-8 tolerance only",
         "sampler contracts (hypotheses): emcee/zeus/drawer/bfgs log-probability = likelihood + prior at the same point; dynesty / "
-        "nautilus / ultranest logl = likelihood at the same row; ultranest weights >= 0; exp >= 0",
+        "nautilus / ultranest logl = likelihood at the same row; ultranest weights >= 0; exp >= 0 -- in every e2e run the contract is "
+        "checked on the arrays the real sampler produced (aspect `contract`, no known-finding label)",
+        "dynesty is seeded from the case (autofit passes no rstate); a sample of DynestyDynamic inside a FitException region must carry "
+        "the resample value -1e99; NaN log-likelihoods (from_lists only) are compared by correspondence, not judged by the oracle",
     ]
     # 1. which MCMC conversion variant does the source have (fail closed)
     variants = {}
@@ -948,7 +983,8 @@ def _small(x, limit=4000):
 
 MANIFEST = {
     "text": "Coq 8.16 theorems over a model of every search's conversion from sampler-internal arrays to Sample lists "
-            "(pairing of log-likelihood / prior / weight with the parameter row, columns keyed by unique prior path in id order, "
+            "(pairing of log-likelihood / prior / weight with the parameter row, the initializer's batch pairing of figures of merit with "
+            "draws, columns keyed by unique prior path in id order, "
             "first-maximum best fit and the vector handed to instance_from_vector), proved for all sampler states under the "
             "stated sampler contracts, with refutation witnesses for the conversions that violate the property; bit-exact vm_compute "
             "correspondence of the model with the real conversion functions (generated sampler states and the arrays of real "
